@@ -98,9 +98,22 @@ def call_temporal(T, P, kind, arg, api):
 def call_spatial(T, P, ds2):
     e = {"ev": "S", "api": "spatial", "T": list(T), "P": [list(p) for p in P], "kind": "step", "d": ds2, "ref": [], "raised": False, "lat": True, "out": []}
     maxden = 2 * max([1] + [int(round(math.hypot(P[i + 1][0] - P[i][0], P[i + 1][1] - P[i][1]))) for i in range(len(P) - 1)])
+    # history variant (every other call with >= 3 fixes): the track was longer, its curvilinear abscissa was computed, and a
+    # fix was removed since - the stored abs_curv column is STALE; the result is defined by the polyline as it stands now
+    stale = len(P) >= 3 and (sum(T) + ds2 + len(P)) % 2 == 0
+    e["hist"] = "stale-abs_curv" if stale else ""
     try:
         with core.quiet():
-            tr = mk(T, P)
+            if stale:
+                from tracklib.algo.cinematics import computeAbsCurv
+                k = 1 + (sum(T) % (len(P) - 1))
+                P2 = list(P[:k]) + [[P[k - 1][0] + 7, P[k - 1][1] - 5, 3]] + list(P[k:])
+                T2 = list(T[:k]) + [(T[k - 1] + T[k]) / 2.0] + list(T[k:])
+                tr = mk(T2, P2)
+                computeAbsCurv(tr)
+                tr.removeObs(k)
+            else:
+                tr = mk(T, P)
             tr.resample(delta=(ds2 // 2 if ds2 % 2 == 0 else ds2 / 2.0), mode=1)
         e["out"], e["lat"] = rows(tr, maxden)
     except (Exception, SystemExit) as ex:
